@@ -31,11 +31,7 @@ class LazyList:
         return gen()
 
     def __bool__(self):
-        try:
-            next(self)
-            return True
-        except StopIteration:
-            return False
+        return self.has_ind(0)
 
     def __call__(self, *args, **kwargs):
         return self
@@ -104,7 +100,7 @@ class LazyList:
                 return ret
         else:
             if position < 0:
-                self.generated += list(self)
+                list(self)  # iterating generates (and caches) every item
                 return self.generated[position]
             elif position < len(self.generated):
                 return self.generated[position]
